@@ -102,7 +102,7 @@ def judge_plan(res, sizes, W, demands, opt):
 LIMITS = [{"max_iter": 0}, {"max_iter": 1}, {"max_iter": 2}, {"stop": 0}, {"stop": 1}, {"max_iter": 1, "max_nodes": 1}, {"max_nodes": 2}]
 
 
-def run_instance(r, sizes, W, demands, solvers, limits=False, base=None, opt=None):
+def run_instance(r, sizes, W, demands, solvers, limits=False, base=None, opt=None, guard=(20.0, 200_000_000)):
     from solvor.bp import solve_bp
     from solvor.cg import solve_cg
 
@@ -128,7 +128,7 @@ def run_instance(r, sizes, W, demands, solvers, limits=False, base=None, opt=Non
         if nontrivial:
             r["nontrivial"] += 1
         try:
-            res = gcall(lambda: fn(list(demands), roll_width=W, piece_sizes=list(sizes), **kw), 20.0, 200_000_000)
+            res = gcall(lambda: fn(list(demands), roll_width=W, piece_sizes=list(sizes), **kw), *guard)
         except SolverHang as ex:
             r["outcomes"][name + ":hang"] += 1
             r["counters"]["hangs"] += 1
@@ -293,7 +293,8 @@ def _many_types_chunk(params, lo, hi):
         if idx % 2 == 0:
             run_instance(r, list(sizes), W, list(demands), ("solve_cg",), opt=k)
         elif W <= 45 and max(demands) == 1 and sizes != sorted(sizes):  # solve_bp costs seconds per case here: the three smallest only
-            run_instance(r, list(sizes), W, list(demands), ("solve_bp",), base={"max_iter": 45, "max_nodes": 30}, opt=k)
+            # the 18-type case needs 1.7e8 loop back-edges (8 s): a budget with room to spare
+            run_instance(r, list(sizes), W, list(demands), ("solve_bp",), base={"max_iter": 45, "max_nodes": 30}, opt=k, guard=(120.0, 1_500_000_000))
         if len(r["violations"]) >= 40 or r["counters"]["hangs"] >= 2 or too_many_hangs():
             r["capped"] = True
             break
@@ -467,6 +468,6 @@ def replay(v):
     base = None
     if w.get("optimum_by_construction") is not None and isinstance(w.get("limits"), dict):
         base = dict(w["limits"])  # families with a closed-form optimum pass their budget as base configuration
-    run_instance(r, w["piece_sizes"], w["roll_width"], w["demands"], (v["function"],), limits=bool(w.get("limits")) and base is None, base=base, opt=w.get("optimum_by_construction"))
+    run_instance(r, w["piece_sizes"], w["roll_width"], w["demands"], (v["function"],), limits=bool(w.get("limits")) and base is None, base=base, opt=w.get("optimum_by_construction"), guard=(120.0, 1_500_000_000) if base is not None else (20.0, 200_000_000))
     r["violations"] = [x for x in r["violations"] if x["witness"].get("limits") == w.get("limits")]
     return r["violations"][0] if r["violations"] else None
